@@ -29,7 +29,7 @@ Bin(op, l, r) == [op |-> op, l |-> l, r |-> r]
 NegE(a) == [op |-> "neg", a |-> a]
 NumE(a) == [op |-> "num", v |-> a]
 IntE(k) == NumE(NInt(k))
-Lit(s) == [op |-> "lit", v |-> s]
+Lit(s) == [op |-> "lit", s |-> s]
 Var(pre, lo) == [op |-> "var", pre |-> pre, lo |-> lo]
 Call(lo, args) == [op |-> "call", pre |-> "", lo |-> lo, args |-> args]
 CallP(pre, lo, args) == [op |-> "call", pre |-> pre, lo |-> lo, args |-> args]
